@@ -10,6 +10,7 @@
   Core Lean only.
 -/
 import LccModel.Model.Report
+import LccModel.Model.AttachName
 
 namespace LccModel.Session
 open LccModel.Report
@@ -141,9 +142,10 @@ def stepped (s : St) (tid : Nat) (failing : Bool) (mk : Loc â†’ Option String â†
     let e := mk c.loc c.step s.now
     .ok (setCursor (fire (tick s) e) tid c)
 
+/-- the path the `LogAttachmentEvent` carries: `"%s/%s" % ("attachments", "%04d_%s" % (n, filename))` â€” the directory
+    and the very name the file is created under (`AttachName.stored`, any characters, any length) -/
 def attachName (n : Nat) (filename : String) : String :=
-  let d := toString n
-  "attachments/" ++ String.mk (List.replicate (4 - d.length) '0') ++ d ++ "_" ++ filename
+  "attachments/" ++ String.ofList (AttachName.stored n filename.toList)
 
 def step (s : St) (tid : Nat) : Op â†’ Except Err St
   | .startTestSession => .ok (fire (tick s) (.sessionStart s.now))
